@@ -152,6 +152,16 @@ func (rr *RunningBucketResults) AddMeasureResults(runningStats *[]runningStats, 
 		}
 
 		measureFunc := rr.currStats[i].MeasureFunc
+		// A string that reads as a number counts as that number in sum, avg, min, max and range,
+		// as it does in the stats without a by clause (AddSegStatsStr).
+		if rr.currStats[i].ValueColRequest == nil && measureResults[i].Dtype == sutils.SS_DT_STRING &&
+			(measureFunc == sutils.Sum || measureFunc == sutils.Min || measureFunc == sutils.Max) {
+			if strVal, ok := measureResults[i].CVal.(string); ok {
+				if floatVal, err := utils.FastParseFloat([]byte(strVal)); err == nil {
+					measureResults[i] = sutils.CValueEnclosure{Dtype: sutils.SS_DT_FLOAT, CVal: floatVal}
+				}
+			}
+		}
 		// TODO: Change All the Eval functions to return error
 		// of type *ErrorWithCode
 		switch measureFunc {
